@@ -120,6 +120,7 @@ type rcase struct {
 	Used     []uint             `json:"used,omitempty"`
 	Cms      map[string][]int64 `json:"cost_models,omitempty"`
 	NilEmpty bool               `json:"nil_for_empty,omitempty"`
+	PrevTx   string             `json:"decoded_before_into_same_value,omitempty"`
 	Steps    []hstep            `json:"steps,omitempty"` // kind=hist: the whole history up to the reported validation
 	RepV     uint               `json:"rep_version,omitempty"`
 	RepN     int                `json:"rep_len,omitempty"`
@@ -717,8 +718,16 @@ func runRule(c *vh.Ctx, cf *vh.CaseFile, e *eraT, raw []byte, utxoHex map[string
 		rc = *rcOverride
 	}
 	c.Begin(rc)
-	tx, err := ledger.NewTransactionFromCbor(e.id, raw)
+	if dirtyPrev != nil && rcOverride == nil {
+		rc.PrevTx = hex.EncodeToString(dirtyPrev)
+	}
+	tx, err := decodeTx(e, raw, dirtyPrev)
 	if err != nil {
+		if dirtyPrev != nil {
+			if _, ferr := ledger.NewTransactionFromCbor(e.id, raw); ferr == nil {
+				c.Res.Violate("monitor", "dirty-receiver/decode-differs:"+e.name, "decoding into a value that already holds a transaction fails ("+err.Error()+"), a fresh value decodes", rc)
+			}
+		}
 		c.Res.Count("", false, "decoder-rejected/"+e.name)
 		return false
 	}
@@ -968,6 +977,52 @@ func shapeKey(e *eraT, redIt *vh.Item, nRed int, datIt *vh.Item, nDat int, used 
 // its cost models are changed in place, so anything it remembers about an
 // earlier call (memoised language views, cached hashes ...) shows up as a
 // verdict that differs from the stateless model / the specification.
+
+// dirtyPrev, when set, makes runRule decode that transaction first and the
+// case's transaction into the SAME value afterwards (a reused receiver must
+// behave like a fresh one: the rule is about the transaction decoded last).
+var dirtyPrev []byte
+
+func decodeTx(e *eraT, raw, prev []byte) (common.Transaction, error) {
+	if prev == nil {
+		return ledger.NewTransactionFromCbor(e.id, raw)
+	}
+	var v common.Transaction
+	switch e.id {
+	case alonzo.TxTypeAlonzo:
+		v = &alonzo.AlonzoTransaction{}
+	case babbage.TxTypeBabbage:
+		v = &babbage.BabbageTransaction{}
+	case conway.TxTypeConway:
+		v = &conway.ConwayTransaction{}
+	case dijkstra.TxTypeDijkstra:
+		v = &dijkstra.DijkstraTransaction{}
+	default:
+		return ledger.NewTransactionFromCbor(e.id, raw)
+	}
+	_, _ = cbor.Decode(prev, v)
+	if _, err := cbor.Decode(raw, v); err != nil {
+		return nil, err
+	}
+	return v, nil
+}
+
+var lastRaw = map[uint][]byte{}
+
+// runRuleBoth runs a case with a fresh receiver and then once more decoded
+// into a value that already holds the previous transaction of the same era.
+func runRuleBoth(c *vh.Ctx, cf *vh.CaseFile, e *eraT, raw []byte, utxoHex map[string]string, cms map[uint][]int64, nilEmpty bool, class string) bool {
+	ok := runRule(c, cf, e, raw, utxoHex, cms, nilEmpty, class)
+	if prev, has := lastRaw[e.id]; ok && has {
+		dirtyPrev, keyPrefix = prev, "dirty-receiver/"
+		runRule(c, cf, e, raw, utxoHex, cms, nilEmpty, "dirty-receiver/"+class)
+		dirtyPrev, keyPrefix = nil, ""
+	}
+	if ok {
+		lastRaw[e.id] = raw
+	}
+	return ok
+}
 
 var (
 	ppOverride common.ProtocolParameters
@@ -1384,7 +1439,7 @@ func shuffle(r *vh.Rng, xs []uint) []uint {
 }
 
 func run(c *vh.Ctx) error {
-	c.Res.Rule = "EncodeLangViews: every subset of PlutusV1..V4 (presented in shuffled order) x cost models; a length grid per language: 0, 1, 23, 24, 255, 256, 257, 1000 entries (every array / byte-string header width; explicit lists with boundary integers and uniform lists built inside Coq), thorough also 5000, 65532, 65535..65537, 70000; random lengths 0..12, 23..25, 166..297; values over the whole int64 range incl. header-width boundaries, plus missing-cost-model and unsupported-version errors, nil vs empty slices; ShortLex on byte-string pairs of equal/different lengths; rule: Alonzo/Babbage/Conway/Dijkstra transactions decoded from bytes, redeemers absent / list / map / empty, datums absent / array / tag-258 set / empty, non-canonical and indefinite encodings of both, PlutusV1..V3 witness scripts, reference scripts on reference and regular inputs (native, V1..V4, unresolvable), declared hash correct / absent / random / computed from one changed piece / computed under different cost models, one cost model missing; validation HISTORIES on two long-lived parameter objects per era: warm-up validations, a used language's cost model changed in place (direct map write / the era's Update with a decoded update payload / UpdateFromGenesis), then the hash for the outdated models (must be rejected), the hash for the current models (accepted), the untouched object and another language set, plus random interleavings; every verdict compared with the stateless model on the current cost models. distinct by (tx bytes, cost models); non-trivial = redeemers or datums or a declared hash present (rule), at least one non-empty view or two languages (encoding)"
+	c.Res.Rule = "EncodeLangViews: every subset of PlutusV1..V4 (presented in shuffled order) x cost models; a length grid per language: 0, 1, 23, 24, 255, 256, 257, 1000 entries (every array / byte-string header width; explicit lists with boundary integers and uniform lists built inside Coq), thorough also 5000, 65532, 65535..65537, 70000; random lengths 0..12, 23..25, 166..297; values over the whole int64 range incl. header-width boundaries, plus missing-cost-model and unsupported-version errors, nil vs empty slices; ShortLex on byte-string pairs of equal/different lengths; rule: Alonzo/Babbage/Conway/Dijkstra transactions decoded from bytes, redeemers absent / list / map / empty, datums absent / array / tag-258 set / empty, non-canonical and indefinite encodings of both, PlutusV1..V3 witness scripts, reference scripts on reference and regular inputs (native, V1..V4, unresolvable), declared hash correct / absent / random / computed from one changed piece / computed under different cost models, one cost model missing; every grid case and half of the random ones a second time DECODED INTO A VALUE THAT ALREADY HOLDS the previous transaction of the era, plus scripted pairs (datums / redeemers / scripts / reference inputs / hash present in A and absent in B) - expected verdict = model on B alone; validation HISTORIES on two long-lived parameter objects per era: warm-up validations, a used language's cost model changed in place (direct map write / the era's Update with a decoded update payload / UpdateFromGenesis), then the hash for the outdated models (must be rejected), the hash for the current models (accepted), the untouched object and another language set, plus random interleavings; every verdict compared with the stateless model on the current cost models. distinct by (tx bytes, cost models); non-trivial = redeemers or datums or a declared hash present (rule), at least one non-empty view or two languages (encoding)"
 	c.Res.Modelled = []string{
 		"Blake2b-256 is a Section variable in the theorems; in the correspondence it is the finite table of (preimage, digest) pairs the harness computed with golang.org/x/crypto/blake2b for the specified preimage and its plausible variants (any other preimage hashes to the empty string, which never equals a declared 32-byte hash)",
 		"the third-party encoder (shortest-form heads for int64, []byte, []int64) is modelled by head_min; validated byte for byte on every EncodeLangViews case",
@@ -1414,7 +1469,11 @@ func run(c *vh.Ctx) error {
 		case "lex":
 			runLex(c, cf, vh.UnHex(r.A), vh.UnHex(r.B))
 		default:
+			if r.PrevTx != "" {
+				dirtyPrev, keyPrefix = vh.UnHex(r.PrevTx), "dirty-receiver/"
+			}
 			runRule(c, cf, eraByID(r.Era), vh.UnHex(r.Tx), r.Utxos, cmsFromJSON(r.Cms, r.NilEmpty), r.NilEmpty, "replay")
+			dirtyPrev, keyPrefix = nil, ""
 		}
 		cf.Flush()
 		return nil
@@ -1538,11 +1597,49 @@ func run(c *vh.Ctx) error {
 					s.inKinds = []int{-1}
 					s.cms = costModels(r, c, []uint{0, 1, 2, 3})
 					bt := build(r, s)
-					runRule(c, cf, e, bt.raw, bt.utxos, s.cms, false, fmt.Sprintf("rule-grid/%s/hashmode-%d", e.name, hm))
+					runRuleBoth(c, cf, e, bt.raw, bt.utxos, s.cms, false, fmt.Sprintf("rule-grid/%s/hashmode-%d", e.name, hm))
 				}
 			}
 		}
 	}
+	// scripted receiver reuse: A leaves something behind that B does not carry
+	for i := range eras {
+		e := &eras[i]
+		mapForm := 1
+		if e.id >= conway.TxTypeConway {
+			mapForm = 2
+		}
+		pairs := [][2]txSpec{
+			{{redForm: mapForm, nRed: 1, datForm: 1, nDat: 2, v1: true}, {redForm: mapForm, nRed: 1, v1: true}},   // datums -> none
+			{{redForm: mapForm, nRed: 2, v1: true}, {datForm: 1, nDat: 1, v1: true}},                               // redeemers -> none
+			{{redForm: mapForm, nRed: 1, v1: true, v2: true, v3: true}, {redForm: mapForm, nRed: 1}},               // scripts -> none
+			{{redForm: mapForm, nRed: 1, datForm: 1, nDat: 1, v1: true}, {}},                                       // everything -> plain tx
+			{{redForm: 1, nRed: 1, v1: true}, {redForm: mapForm, nRed: 1, v1: true}},                               // list form -> map form
+			{{redForm: mapForm, nRed: 1, datForm: 1, nDat: 1, refKinds: []int{2, 4}}, {redForm: mapForm, nRed: 1}}, // reference inputs -> none
+		}
+		for _, pr := range pairs {
+			for _, hm := range []int{0, 1} {
+				a, b := pr[0], pr[1]
+				a.era, a.dropCM, a.inKinds, a.cms = e, -1, []int{-1}, costModels(r, c, []uint{0, 1, 2, 3})
+				b.era, b.dropCM, b.inKinds, b.cms, b.hashMode = e, -1, []int{-1}, a.cms, hm
+				if e.id < babbage.TxTypeBabbage {
+					a.refKinds = nil
+				}
+				ba, bb := build(r, &a), build(r, &b)
+				if _, err := ledger.NewTransactionFromCbor(e.id, ba.raw); err != nil {
+					continue
+				}
+				utx := map[string]string{}
+				for k, v := range bb.utxos {
+					utx[k] = v
+				}
+				dirtyPrev, keyPrefix = ba.raw, "dirty-receiver/"
+				runRule(c, cf, e, bb.raw, utx, b.cms, false, fmt.Sprintf("dirty-receiver/scripted/%s/hashmode-%d", e.name, hm))
+				dirtyPrev, keyPrefix = nil, ""
+			}
+		}
+	}
+
 	// long PlutusV1/V2 cost models at rule level (header widths of the list and of the wrapping byte string)
 	for i := range eras {
 		e := &eras[i]
@@ -1647,7 +1744,11 @@ func run(c *vh.Ctx) error {
 				class += "/nil-cost-model"
 			}
 		}
-		runRule(c, cf, e, bt.raw, bt.utxos, cms, nilEmpty, class)
+		if i%2 == 0 {
+			runRuleBoth(c, cf, e, bt.raw, bt.utxos, cms, nilEmpty, class)
+		} else {
+			runRule(c, cf, e, bt.raw, bt.utxos, cms, nilEmpty, class)
+		}
 	}
 	cf.Flush()
 	cfH := c.NewCaseFile("c31hist", header)
